@@ -240,7 +240,7 @@ def run(pid, tier, seed, replay=None):
         return chk.finish()
     quick = tier == 'quick'
     if pid == 'C01':
-        ps = ParseStream(chk, exe, 120 if quick else 1200, 4 if quick else 6, 4)
+        ps = ParseStream(chk, exe, 120 if quick else 1200, 4 if quick else 6, 4, n_families=40 if quick else 400)
         ps.oracle_basics(want_trans=False)
         cfgs = [{'la': la, 'one': o, 'cost': c, 'rec': r} for la in ALL_LA for o in (0, 1) for c in (0, 1) for r in (0, 1)]
         res = ps.run_impl(lambda i: cfgs if ps.rec[i] is not None else [])
